@@ -42,12 +42,12 @@ Theorem C08_invariant_fixsigns : forall (negcol : list V -> bool) K i,
 Proof. intros; eapply den_fixsigns; eauto. Qed.
 Theorem C08_sign_parity : forall (negcol : list V -> bool) K r,
   Nat.even (length (flips_of (fun n r => memb n (fs_modes v0 negcol K r)) (length (kfactors K)) r)) = true.
-Proof. intros negcol K r. exact (fixsigns_parity V v0 negcol K r). Qed.
+Proof. intros negcol K r. exact (fixsigns_parity V v0 vinv negcol K r). Qed.
 (* fixsigns(other), pairing rule of the MATLAB original (pyttb's off-by-one is finding A-29): even number of flips
    for every score comparison / sign oracle *)
 Theorem C08_sign_parity_other : forall (neg : V -> bool) (leb : V -> V -> bool) A B r,
   Nat.even (length (flips_of (fun n r => memb n (fso_modes v0 vadd vmul vopp neg leb A B r)) (length (kfactors A)) r)) = true.
-Proof. intros neg leb A B r. exact (fixsigns_other_parity V v0 vadd vmul vopp neg leb A B r). Qed.
+Proof. intros neg leb A B r. exact (fixsigns_other_parity V v0 vadd vmul vopp vinv neg leb A B r). Qed.
 
 (* the insertion argsort used by the executable instances is a permutation for every comparison function *)
 Theorem C08_argsort_perm : forall (leb : V -> V -> bool) l, is_perm (argsort_desc leb l) (length l).
